@@ -11,7 +11,7 @@ CHECKS = {
     "C01": dict(
         technique="TLA+ trace validation (TrPair.tla: FlagExactP over Wcag.tla tables) of recorded ColorPair behaviours + TLC model checking of Strat.tla",
         text="Design level: TLC checks FlagExact on Strat.tla for every contrast/dE oracle and memoised search result (3 colours, all minimum/target, modes 1->2->0). Code level: every recorded make_readable call (all spellings x modes x large x very_readable, threshold-concentrated) is one state of TrPair.tla; TLC evaluates success <=> Meets(CSS read-back, bg, Required(large,vr)) with the spec's own WCAG tables and requirement table.",
-        note="Trusted: TLC; exact-integer WCAG table generator (pinned by ASSUMEs); harness CSS reader refs.css_parse (calibrated against CssColor.tla in C07); pair.text.rgb/bg.rgb as parsed pair. Ratios within the table uncertainty of a threshold are inconclusive, never violations.",
+        note="Trusted: TLC; exact-integer WCAG table generator (pinned by ASSUMEs); harness CSS reader refs.css_parse (calibrated against CssColor.tla in C07); the parsed pair is the library's reading while it is an admissible reading of the given spelling - otherwise the CSS (or documented) meaning of the spelling replaces it. Ratios within the table uncertainty of a threshold are inconclusive, never violations.",
         ref="5 C01"),
     "C02": dict(
         technique="TLA+ trace validation (TrPair.tla: AlreadyOkP, NoHarmP) + TLC model checking of Strat.tla and Gac.tla",
@@ -55,12 +55,12 @@ CHECKS = {
         ref="5 C09"),
     "C18": dict(
         technique="TLC model checking of CliBatch.tla (all trees x orders x two runs) + TLC-generated directory trees replayed into the real command + trace validation (TrBatch.tla)",
-        text="Design level: every tree of <=3 files over 10 kinds (incl. 4 fault kinds and *_cm.css), every traversal order, two runs: Isolation, SkipBad, NoCmInput, RerunStable; configurations with a shared custom-property table or kept *_cm.css inputs are rejected. Code level: TLC-enumerated trees are materialised (names/sub-directories permuted), the command is run twice on the directory and once per valid file alone; TLC judges byte-equality ids, reporting of bad files, absence of *_cm_cm.css, rerun stability.",
+        text="Design level: every tree of <=3 files over 15 kinds (incl. 6 fault kinds, 2 write-fault kinds and *_cm.css), every traversal order, two runs: Isolation, SkipBad, NoCmInput, RerunStable; configurations with a shared custom-property table or kept *_cm.css inputs are rejected. Code level: TLC-enumerated trees are materialised (names/sub-directories permuted), the command is run twice on the directory and once per valid file alone; TLC judges byte-equality ids, reporting of bad files, absence of *_cm_cm.css, rerun stability.",
         note="Traversal order cannot be forced, only varied. Unreadable-by-permission files are not exercised (the sandbox runs as root).",
         ref="5 C18"),
     "C19": dict(
         technique="TLC model checking of the escaping discipline against an abstract HTML tokenizer (Report.tla) + TLC-generated strings replayed into both report generators + trace validation (TrReport.tla)",
-        text="Design level: SafeP for every string of <=3 symbols over a 20-symbol markup alphabet in element-content and attribute-value context; escaping modes noquote/none/skipIfRef are rejected. Code level: each TLC string is placed in each of 5 user-controlled slots of generate_report and to_html_bulk; end-to-end routes (CLI selectors, file names, lenient colour strings via save_report); the written report is tokenised with html.parser and TLC judges structure = benign structure and slot text verbatim.",
+        text="Design level: SafeP for every string of <=3 symbols over a 31-symbol alphabet (markup, references, compatibility characters, templating text, script end tags) in element-content and attribute-value context; escaping modes noquote/none/skipIfRef are rejected. Code level: each TLC string is placed in each of 5 user-controlled slots of generate_report and to_html_bulk; end-to-end routes (CLI selectors, file names, lenient colour strings via save_report); the written report is tokenised with html.parser and TLC judges structure = benign structure and slot text verbatim.",
         note="Trusted: html.parser as tokenizer. Level fields are library-computed, not user text.",
         ref="5 C19"),
     "C12": dict(
@@ -80,7 +80,7 @@ CHECKS = {
         ref="5 C14"),
     "C15": dict(
         technique="TLA+ API state machine with history variable memo (Api.tla: FixPure etc.) + TLC-generated histories (ApiHist.tla) replayed into the code + trace validation (TrApi.tla) merged with fresh-interpreter references and thread logs",
-        text="TLC enumerates all API histories of depth <=3 (43k); sampled (quick) or broadly (thorough) bound to concrete pair pairs, executed in-process, merged with reference observations from fresh interpreter processes (two hash seeds) and validated: any result that contradicts an earlier observation of the same arguments is a violation; 4-thread workloads validated the same way.",
+        text="TLC enumerates all API histories of depth <=3 (43k); sampled (quick) or broadly (thorough) bound to concrete pair pairs, executed in-process, merged with reference observations from fresh interpreter processes (three hash seeds, one of them started with -O) and validated: any result that contradicts an earlier observation of the same arguments is a violation; 4-thread workloads validated the same way.",
         note="Pre-emptive interleavings are sampled, not enumerated. Design level: MC_Api (MemoAgreesWithLib).",
         ref="5 C15"),
     "C17": dict(
